@@ -133,6 +133,9 @@ size_t varintPFOREncode(uint8_t *dst, const uint64_t *values, uint32_t count,
 
     /* Compute metadata */
     varintPFORComputeThreshold(values, count, threshold, meta);
+    if (meta->count != count) {
+        return 0; /* analysis failed (out of memory): nothing to encode from */
+    }
 
     /* Write header: min, width, count */
     dst += varintTaggedPut64(dst, meta->min);
@@ -151,9 +154,9 @@ size_t varintPFOREncode(uint8_t *dst, const uint64_t *values, uint32_t count,
     if (meta->exceptionCount > 0) {
         exceptions = malloc(meta->exceptionCount * sizeof(Exception));
         if (!exceptions) {
-            /* Out of memory - fall back to encoding without exception tracking
-             * This will still produce valid output, just not optimal */
-            meta->exceptionCount = 0;
+            /* Out of memory: report failure rather than emit outliers
+             * truncated to the regular width */
+            return 0;
         }
     }
 
